@@ -25,6 +25,7 @@ class Conv:
         self.relations = []         # polynomials known to vanish (sqrt witnesses)
         self.opaque = {}
         self.normal_form = normal_form
+        self.eager_syms = set()
 
     def sym(self, name):
         s = self.syms.get(name)
@@ -55,6 +56,9 @@ class Conv:
                 v = self._app(n, a)
             else:
                 raise Unsupported('ideal back end: %s node' % op)
+            if self.normal_form is not None and self.eager_syms and op in ('mul', 'pow', 'div') and (v.free_symbols & self.eager_syms):
+                # eliminate the ideal's variables as early as possible: keeps intermediate polynomials small
+                v = self.normal_form(v)
             c[id(n)] = v
         return c[id(t)]
 
@@ -165,3 +169,117 @@ def prove_eq_linear(hyps_eq, goal_pairs, unknown_prefix='G', timeout=60):
     finally:
         signal.alarm(0)
         signal.signal(signal.SIGALRM, old)
+
+
+# ---------------------------------------------------------------------------
+# SO(3) ideal: Q^T Q = I, det Q = 1  (C08, C12)
+# ---------------------------------------------------------------------------
+
+class SO3:
+    _cache = {}
+
+    def __init__(self, name='q'):
+        self.name = name
+        self.Qt = [[tm.var('%s_%d_%d' % (name, i, j)) for j in range(3)] for i in range(3)]
+        key = name
+        if key not in SO3._cache:
+            q = sp.Matrix(3, 3, lambda i, j: sp.Symbol('%s_%d_%d' % (name, i, j), real=True))
+            rel = list((q.T * q - sp.eye(3))) + list((q * q.T - sp.eye(3))) + [q.det() - 1]
+            rel = [sp.expand(r) for r in rel if r != 0]
+            gens = list(q)
+            G = sp.groebner(rel, *gens, order='grevlex')
+            SO3._cache[key] = (G, gens)
+        self.G, self.gens = SO3._cache[key]
+
+    def hyps(self):
+        """the defining relations as term equalities (for the nra fallback)"""
+        Q = self.Qt
+        out = []
+        for i in range(3):
+            for j in range(i, 3):
+                s = tm.ZERO
+                for k in range(3):
+                    s = s + Q[k][i] * Q[k][j]
+                out.append((s, tm.ONE if i == j else tm.ZERO))
+        det = (Q[0][0] * (Q[1][1] * Q[2][2] - Q[1][2] * Q[2][1]) - Q[0][1] * (Q[1][0] * Q[2][2] - Q[1][2] * Q[2][0])
+               + Q[0][2] * (Q[1][0] * Q[2][1] - Q[1][1] * Q[2][0]))
+        out.append((det, tm.ONE))
+        return out
+
+    def reduce_poly(self, p):
+        p = sp.expand(p)
+        if p == 0 or not (p.free_symbols & set(self.gens)):
+            return p
+        # G stays a Groebner basis in the polynomial ring extended by the other symbols (its S-pairs do not
+        # involve them), so reduce there: no fraction-field arithmetic
+        others = sorted(p.free_symbols - set(self.gens), key=lambda s: s.name)
+        _, rem = sp.reduced(p, list(self.G.exprs), *(list(self.gens) + others), order='grevlex')
+        return sp.expand(rem)
+
+    def normal_form(self, e):
+        e = sp.together(e)
+        num, den = sp.fraction(e)
+        return sp.cancel(self.reduce_poly(num) / self.reduce_poly(den))
+
+
+def prove_eq_mod(so3, goal_pairs, timeout=120):
+    """equalities modulo the SO(3) ideal; applications of opaque functions are identified when their
+    arguments have the same normal form"""
+    t0 = time.time()
+    conv = Conv(normal_form=so3.normal_form)
+    conv.eager_syms = set(so3.gens)
+    old = signal.signal(signal.SIGALRM, _alarm)
+    signal.alarm(int(timeout))
+    try:
+        for (l, r) in goal_pairs:
+            d = sp.together(conv.tr(l) - conv.tr(r))
+            num = sp.fraction(d)[0]
+            rem = so3.reduce_poly(num)
+            if conv.relations:
+                G2 = sp.groebner(list(so3.G.exprs) + list(conv.relations), order='grevlex')
+                _, rem = G2.reduce(sp.expand(num))
+            if rem != 0:
+                return 'unknown', 'remainder %s' % str(rem)[:300], time.time() - t0
+        return 'proved', 'zero modulo the SO(3) ideal (%d opaque applications identified by normal form)' % len(conv.opaque), time.time() - t0
+    except _Timeout:
+        return 'unknown', 'timeout after %ds' % timeout, time.time() - t0
+    except Unsupported as e:
+        return 'unknown', str(e), time.time() - t0
+    finally:
+        signal.alarm(0)
+        signal.signal(signal.SIGALRM, old)
+
+
+def split_cases(terms_, so3=None, max_atoms=6):
+    """ite-free versions of ``terms_`` for every truth assignment of their comparison atoms; atoms whose
+    difference has the same normal form share a boolean. Returns list of (assumed atoms, substituted terms)."""
+    import itertools
+    atoms = []
+    for n in tm.postorder(list(terms_)):
+        if n.op == 'ite':
+            for a in tm.postorder([n.args[0]]):
+                if a.op in ('lt', 'le', 'eq') and not any(a is x for x in atoms):
+                    atoms.append(a)
+    if not atoms:
+        return [([], list(terms_))]
+    conv = Conv(normal_form=so3.normal_form if so3 else None)
+    keys = {}
+    groups = []
+    for a in atoms:
+        d = sp.together(conv.tr(a.args[0]) - conv.tr(a.args[1]))
+        nf = so3.normal_form(d) if so3 else sp.cancel(d)
+        k = (a.op, sp.srepr(sp.expand(nf)))
+        if k not in keys:
+            keys[k] = len(groups)
+            groups.append([])
+        groups[keys[k]].append(a)
+    if len(groups) > max_atoms:
+        raise Unsupported('too many independent branch conditions (%d)' % len(groups))
+    out = []
+    for bits in itertools.product([True, False], repeat=len(groups)):
+        sub = {}
+        for g, b in zip(groups, bits):
+            for a in g:
+                sub[a] = tm.TRUE if b else tm.FALSE
+        out.append(([(g[0], b) for g, b in zip(groups, bits)], [tm.substitute(t, sub) for t in terms_]))
+    return out
